@@ -478,10 +478,17 @@ class WiredNetworkInterface(NetworkInterface, ABC):
         This method removes the association between the network interface and its connected Link. It updates the
         connected Link's endpoints to reflect the disconnection.
         """
-        if self._connected_link.endpoint_a == self:
-            self._connected_link.endpoint_a = None
-        if self._connected_link.endpoint_b == self:
-            self._connected_link.endpoint_b = None
+        link = self._connected_link
+        if link is None:
+            return
+        # an interface without a link cannot stay enabled (disabled while the link still has both ends)
+        self.disable()
+        if link.parent is not None and hasattr(link.parent, "_forget_edge"):
+            link.parent._forget_edge(link)
+        if link.endpoint_a == self:
+            link.endpoint_a = None
+        if link.endpoint_b == self:
+            link.endpoint_b = None
         self._connected_link = None
 
     def send_frame(self, frame: Frame) -> bool:
@@ -702,8 +709,8 @@ class Link(SimComponent):
         state = super().describe_state()
         state.update(
             {
-                "endpoint_a": self.endpoint_a.uuid,  # TODO: consider if using UUID is the best way to do this
-                "endpoint_b": self.endpoint_b.uuid,  # TODO: consider if using UUID is the best way to do this
+                "endpoint_a": self.endpoint_a.uuid if self.endpoint_a else None,
+                "endpoint_b": self.endpoint_b.uuid if self.endpoint_b else None,
                 "bandwidth": self.bandwidth,
                 "current_load": self.current_load,
             }
@@ -734,6 +741,8 @@ class Link(SimComponent):
 
         This is based upon both NIC endpoints being enabled.
         """
+        if self.endpoint_a is None or self.endpoint_b is None:
+            return False
         return self.endpoint_a.enabled and self.endpoint_b.enabled
 
     def can_transmit_frame(self, frame: Frame) -> bool:
